@@ -208,8 +208,8 @@ Proof.
   - (* FTsCanc *) split_hyp H; inv_ok H; fin_counts T.
   - split_hyp H; inv_ok H; fin_counts T.
   - split_hyp H; inv_ok H; fin_counts T.
-  - split_hyp H; inv_ok H; fin_counts T.
-  - (* FCsPool *) split_hyp H; [split_hyp H|]; inv_ok H; fin_counts T.
+  - destruct second; split_hyp H; inv_ok H; fin_counts T.
+  - (* FCsPool *) split_hyp H; inv_ok H; fin_counts T.
   - inv_ok H; fin_counts T.
   - inv_ok H; fin_counts T.
   - (* FPkgInc *) inv_ok H; fin_counts T.
@@ -482,8 +482,8 @@ Proof.
   - split_hyp H; inv_ok H; fin_led T k.
   - split_hyp H; inv_ok H; fin_led T k.
   - split_hyp H; inv_ok H; fin_led T k.
+  - destruct second; split_hyp H; inv_ok H; fin_led T k.
   - split_hyp H; inv_ok H; fin_led T k.
-  - split_hyp H; [split_hyp H|]; inv_ok H; fin_led T k.
   - inv_ok H; fin_led T k.
   - inv_ok H; fin_led T k.
   - (* FPkgInc *) inv_ok H; fin_led T k.
@@ -579,14 +579,13 @@ Proof.
 Qed.
 
 (* ============================================================================================================
-   C04: licences -- every frame that may start a body of T (other than the second inline fallback of
-   ConcurrentTaskSet::schedule / schedulePlaced) carries the clock of a canceled_ load that read false, and that
-   load precedes the first canceled_ := true store of T
+   C04: licences -- every frame that may start a body of T carries the clock of a canceled_ load that read false,
+   and that load precedes the first canceled_ := true store of T
    ============================================================================================================ *)
 Definition lic_of (f : frame) : option (nat * Z) :=
   match f with
   | FTsOut T _ _ lic => Some (T, lic)
-  | FRawPt T _ _ site lic _ => if (site =? 6) || (site =? 9) then None else Some (T, lic)
+  | FRawPt T _ _ _ lic _ => Some (T, lic)
   | FWrap T _ _ (WBodyPt lic) | FInl T _ _ (WBodyPt lic) => Some (T, lic)
   | FBulkOut T _ _ _ _ _ lic => Some (T, lic)
   | _ => None
@@ -655,8 +654,8 @@ Proof.
   - split_hyp H; inv_ok H; (split; [fin_stores | reflexivity]).
   - split_hyp H; inv_ok H; (split; [fin_stores | reflexivity]).
   - split_hyp H; inv_ok H; (split; [fin_stores | reflexivity]).
+  - destruct second; split_hyp H; inv_ok H; (split; [fin_stores | reflexivity]).
   - split_hyp H; inv_ok H; (split; [fin_stores | reflexivity]).
-  - split_hyp H; [split_hyp H|]; inv_ok H; (split; [fin_stores | reflexivity]).
   - inv_ok H; (split; [fin_stores | reflexivity]).
   - inv_ok H; (split; [fin_stores | reflexivity]).
   - inv_ok H; (split; [fin_stores | reflexivity]).
@@ -774,9 +773,12 @@ Proof.
   - (* FTsCanc *) split_hyp H; inv_ok H; lic_frames EXT Hf Hr Hc CI C0.
   - split_hyp H; inv_ok H; lic_frames EXT Hf Hr Hc CI C0.
   - split_hyp H; inv_ok H; lic_frames EXT Hf Hr Hc CI C0.
-  - (* FCsCanc *) split_hyp H; inv_ok H; [|lic_frames EXT Hf Hr Hc CI C0].
-    apply andb_prop in Heqb0. destruct Heqb0 as [A _]. apply negb_true_iff in A. destruct placed; lic_frames EXT Hf Hr Hc CI C0.
-  - split_hyp H; [split_hyp H|]; inv_ok H; try (destruct placed); lic_frames EXT Hf Hr Hc CI C0.
+  - (* FCsCanc *) destruct second.
+    + split_hyp H; inv_ok H; [lic_frames EXT Hf Hr Hc CI C0|].
+      match goal with A : (_ || _) = false |- _ => apply orb_false_iff in A; destruct A as [A _] end. destruct placed; lic_frames EXT Hf Hr Hc CI C0.
+    + split_hyp H; inv_ok H; [|lic_frames EXT Hf Hr Hc CI C0].
+      match goal with A : (_ && _) = true |- _ => apply andb_prop in A; destruct A as [A _]; apply negb_true_iff in A end. destruct placed; lic_frames EXT Hf Hr Hc CI C0.
+  - (* FCsPool *) split_hyp H; inv_ok H; lic_frames EXT Hf Hr Hc CI C0.
   - inv_ok H; lic_frames EXT Hf Hr Hc CI C0.
   - inv_ok H; lic_frames EXT Hf Hr Hc CI C0.
   - inv_ok H; lic_frames EXT Hf Hr Hc CI C0.
@@ -851,13 +853,12 @@ Definition body_point (f : frame) : option (nat * Z) :=
   | _ => None
   end.
 Theorem no_body_after_cancel u s th f T site :
-  reach step1 (init u) s -> In th (threads s) -> In f (stk th) -> body_point f = Some (T, site) -> site <> 6 -> site <> 9 ->
+  reach step1 (init u) s -> In th (threads s) -> In f (stk th) -> body_point f = Some (T, site) ->
   exists L, lic_of f = Some (T, L) /\ 0 < L <= clock (sh s) /\ (cst (sets (sh s) T) = 0 \/ L < cst (sets (sh s) T)).
 Proof.
-  intros R Hth Hf B N6 N9. destruct (licences _ _ R) as (_ & _ & F). specialize (F _ Hth). rewrite Forall_forall in F. specialize (F _ Hf).
+  intros R Hth Hf B. destruct (licences _ _ R) as (_ & _ & F). specialize (F _ Hth). rewrite Forall_forall in F. specialize (F _ Hf).
   unfold lic_ok in F. destruct f; cbn in B; try discriminate.
-  - injection B as <- <-. cbn [lic_of] in *. destruct (Z.eqb_spec site0 6); [contradiction|]. destruct (Z.eqb_spec site0 9); [contradiction|]. cbn [orb] in *.
-    exists lic. split; [reflexivity | exact F].
+  - injection B as <- <-. cbn [lic_of] in *. exists lic. split; [reflexivity | exact F].
   - destruct st; try discriminate. injection B as <- <-. cbn [lic_of] in *. exists lic. split; [reflexivity | exact F].
   - destruct st; try discriminate. injection B as <- <-. cbn [lic_of] in *. exists lic. split; [reflexivity | exact F].
 Qed.
